@@ -19,7 +19,7 @@ from .. import nf, vg
 from ..core import Ctx
 from ..model import AnalysisError
 
-FLOOR = 21
+FLOOR = 26
 EXPLANATION = (
     "Static def-chain analysis of rl4co/utils/decoding.py (process_logits with the two filters inlined, DecodingStrategy.step/"
     "greedy/sampling, Greedy/Sampling/Evaluate._step): stage order tanh < mask(-inf) < temperature < top-k < top-p < log_softmax, "
